@@ -30,6 +30,7 @@ type LaplaceDistribution struct {
   Sigma Scalar
   c1    Scalar
   c2    Scalar
+  z     Scalar // log(2 sigma)
 }
 
 /* -------------------------------------------------------------------------- */
@@ -41,6 +42,9 @@ func NewLaplaceDistribution(mu, sigma Scalar) (*LaplaceDistribution, error) {
   result.Sigma = sigma.CloneScalar()
   result.c1    = NewScalar(mu.Type(), 1.0)
   result.c2    = NewScalar(mu.Type(), 2.0)
+  result.z     = NewScalar(mu.Type(), 0.0)
+  result.z.Mul(result.c2, sigma)
+  result.z.Log(result.z)
 
   return &result, nil
 
@@ -53,7 +57,8 @@ func (dist *LaplaceDistribution) Clone() *LaplaceDistribution {
     Mu      : dist.Mu   .CloneScalar(),
     Sigma   : dist.Sigma.CloneScalar(),
     c1      : dist.c1   .CloneScalar(),
-    c2      : dist.c2   .CloneScalar() }
+    c2      : dist.c2   .CloneScalar(),
+    z       : dist.z    .CloneScalar() }
 }
 
 func (obj *LaplaceDistribution) CloneScalarPdf() ScalarPdf {
@@ -72,9 +77,7 @@ func (dist *LaplaceDistribution) LogPdf(r Scalar, x ConstScalar) error {
   r.Abs(r)
   r.Div(r, dist.Sigma)
   r.Neg(r)
-  r.Exp(r)
-  r.Div(r, dist.Sigma)
-  r.Div(r, dist.c2)
+  r.Sub(r, dist.z)
 
   return nil
 }
